@@ -27,7 +27,7 @@ RUNS = {"quick": 40000, "thorough": 1000000}
 WALL = {"quick": 240, "thorough": 1500}
 PARTITIONS = [{"name": "default", "env": {}}]
 FAULT_KINDS = ["grow_left", "grow_right", "far_value", "edge_multiple", "ulp_neighbour", "decimal_literal",
-               "empty_batch", "nan_entry", "batch_split", "first_value_creates_bins"]
+               "empty_batch", "nan_entry", "batch_split", "first_value_creates_bins", "derived_object_filled"]
 RULE = ("one run = one adaptive fixed-width accumulator (1-3 D; width from {1,2,0.5,0.25,0.1,0.3,2.5,7,1e-3}; "
         "empty or pre-filled; facade or class constructor; align/shift) fed a seeded stream (<= 40 entries: grid "
         "multiples, ulp neighbours of edges, decimal literals, far values, NaN rows) by fill / fill_n in seeded "
@@ -144,6 +144,11 @@ def generate(rng, seed, part):
             i += k
         if rng.random() < 0.07:
             ops.append({"op": "fill_n", "idx": [], "cont": rng.choice(conts)})
+        if ndim > 1 and rng.random() < 0.06:
+            # somebody takes a projection / an integer selection of the accumulator and fills *that* object beyond its
+            # range; the accumulator's own history goes on afterwards
+            ops.append({"op": "side", "how": rng.choice(["projection", "select"]), "axis": rng.randrange(ndim),
+                        "far": rng.choice([-9.5, 11.25, 40.0])})
     return {"property": PROPERTY, "scenario": "adaptive_stream", "config": cfg, "entries": entries, "ops": ops}
 
 
@@ -401,6 +406,25 @@ def execute(plan, ctx):
         ctx.advance()
         shape_before = tuple(h.shape)
         first_before = [float(b.bins[0, 0]) if b.bin_count else None for b in h.binnings]
+        if op["op"] == "side":
+            if ndim < 2 or any(b.bin_count == 0 for b in h.binnings):
+                continue
+            ax = op["axis"] % ndim
+            if op["how"] == "projection":
+                ok, side = attempt(h.projection, ax)
+            else:
+                ok, side = attempt(h.select, ax, 0)
+            if not ok:
+                ctx.probe("side_derivation_failed:" + type(side).__name__)
+                continue
+            w_ax = [widths[a] for a in range(ndim) if (a == ax) == (op["how"] == "projection")]
+            far = [float(np.asarray(b.bins)[0, 0]) + op["far"] * w_ax[k] for k, b in enumerate(side.binnings)]
+            ok, res = attempt(side.fill, far[0] if side.ndim == 1 else far)
+            ctx.ev("other", f"side:{op['how']}", ax, "ok" if ok else exc_tag(res))
+            ctx.abstract("side", op["how"], ok)
+            ctx.fault("derived_object_filled")
+            prev = check_all([], prev, "fill-of-a-derived-histogram")
+            continue
         if op["op"] == "fill":
             i = op["i"]
             if i >= len(entries):
